@@ -13,8 +13,10 @@ import (
 	"github.com/cosmos/cosmos-proto/rapidproto"
 	"github.com/cosmos/cosmos-proto/zzverif/glue"
 	"google.golang.org/protobuf/proto"
+	"google.golang.org/protobuf/reflect/protodesc"
 	"google.golang.org/protobuf/reflect/protoreflect"
 	"google.golang.org/protobuf/reflect/protoregistry"
+	"google.golang.org/protobuf/types/descriptorpb"
 	"google.golang.org/protobuf/types/dynamicpb"
 	"google.golang.org/protobuf/types/known/durationpb"
 	"google.golang.org/protobuf/types/known/timestamppb"
@@ -154,7 +156,7 @@ func (w *rpWalk) msg(m protoreflect.Message, depth int, path string) {
 		case fd.Kind() == protoreflect.MessageKind:
 			if has {
 				w.msg(m.Get(fd).Message(), depth+1, p)
-			} else if w.o.noNil && depth < 9 && fd.ContainingOneof() == nil {
+			} else if w.o.noNil && depth < 9 && !inOneof(fd) { // members of real oneofs excepted; proto3 optional (synthetic oneof) is a plain field
 				isAny := fd.Message().FullName() == "google.protobuf.Any"
 				if !isAny || w.o.anys {
 					w.bad("disallownil-ignored", fmt.Sprintf("%s: message field unset at depth %d although DisallowNilMessages is set", p, depth))
@@ -319,7 +321,46 @@ func engineRapidp(rep *Report) {
 			}
 		}
 	}
+	if si, _ := shard(); si == 0 && only < 0 {
+		rapidpOptionalMessage(rep)
+	}
 	setProgress(-1, -1, 0)
+}
+
+// rapidpOptionalMessage: a dynamic type with proto3 optional message fields (synthetic oneofs): under
+// DisallowNilMessages they must be populated like any other message field.
+func rapidpOptionalMessage(rep *Report) {
+	opt := func(name string, num int32, typ string, idx int32) *descriptorpb.FieldDescriptorProto {
+		return &descriptorpb.FieldDescriptorProto{Name: proto.String(name), Number: proto.Int32(num), Label: descriptorpb.FieldDescriptorProto_LABEL_OPTIONAL.Enum(),
+			Type: descriptorpb.FieldDescriptorProto_TYPE_MESSAGE.Enum(), TypeName: proto.String(typ), Proto3Optional: proto.Bool(true), OneofIndex: proto.Int32(idx)}
+	}
+	fdp := &descriptorpb.FileDescriptorProto{Name: proto.String("vfdyn/opt.proto"), Package: proto.String("vf.dynopt"), Syntax: proto.String("proto3"),
+		MessageType: []*descriptorpb.DescriptorProto{
+			{Name: proto.String("Leaf"), Field: []*descriptorpb.FieldDescriptorProto{{Name: proto.String("v"), Number: proto.Int32(1), Label: descriptorpb.FieldDescriptorProto_LABEL_OPTIONAL.Enum(), Type: descriptorpb.FieldDescriptorProto_TYPE_STRING.Enum()}}},
+			{Name: proto.String("Plain"), Field: []*descriptorpb.FieldDescriptorProto{opt("leaf", 1, ".vf.dynopt.Leaf", 0)}, OneofDecl: []*descriptorpb.OneofDescriptorProto{{Name: proto.String("_leaf")}}},
+			{Name: proto.String("Holder"), Field: []*descriptorpb.FieldDescriptorProto{opt("leaf", 1, ".vf.dynopt.Leaf", 0), opt("plain", 2, ".vf.dynopt.Plain", 1),
+				{Name: proto.String("n"), Number: proto.Int32(3), Label: descriptorpb.FieldDescriptorProto_LABEL_OPTIONAL.Enum(), Type: descriptorpb.FieldDescriptorProto_TYPE_INT32.Enum()}},
+				OneofDecl: []*descriptorpb.OneofDescriptorProto{{Name: proto.String("_leaf")}, {Name: proto.String("_plain")}}},
+		}}
+	fd, err := protodesc.NewFile(fdp, nil)
+	if err != nil {
+		rep.Notes = append(rep.Notes, "optional-message descriptor: "+err.Error())
+		return
+	}
+	md := fd.Messages().ByName("Holder")
+	gen := rapidproto.MessageGenerator[proto.Message](dynamicpb.NewMessage(md), rapidproto.GeneratorOptions{DisallowNilMessages: true})
+	for i := 0; i < 200; i++ {
+		var m proto.Message
+		pan, pmsg := safely(func() { m = gen.Example(i + 1) })
+		rep.Eval("C18", []byte(fmt.Sprintf("dynopt|%d", i)), true)
+		if pan {
+			rep.Violate("C18", "rapidp/draw-fails", "vf.dynopt.Holder", pmsg, nil)
+			return
+		}
+		w := &rpWalk{rep: rep, tn: "vf.dynopt.Holder", rc: map[string]interface{}{"engine": "rapidp", "type": "vf.dynopt.Holder", "rapid_seed": i + 1}, o: rpOpts{noNil: true}, types: protoregistry.GlobalTypes, urls: map[string]bool{}, stats: map[string]int{}}
+		w.msg(m.ProtoReflect(), 0, "vf.dynopt.Holder")
+	}
+	rep.Count("C18", "draws/proto3-optional-message-dynamic-type", 200)
 }
 
 // reachesCycle reports whether the message graph reachable from d contains a cycle.
